@@ -401,6 +401,10 @@ def _decision_expression(body):
             if const(a_, False) and const(b_, True):
                 return ast.copy_location(ast.UnaryOp(
                     op=ast.Not(), operand=st.test), st)
+            if const(a_, False):
+                # False if c else x   is exactly   (not c) and x
+                return ast.copy_location(ast.BoolOp(op=ast.And(), values=[
+                    ast.UnaryOp(op=ast.Not(), operand=st.test), b_]), st)
             return ast.copy_location(ast.IfExp(test=st.test, body=a_,
                                                orelse=b_), st)
         return None
@@ -841,6 +845,12 @@ class Inliner:
         tree = self.trees[path]
         expr_helper = _as_expression(_body_wo_doc(node)) is not None
         decides = any(isinstance(st, ast.If) for st in _body_wo_doc(node))
+        dexpr = _as_expression(_body_wo_doc(node))
+        boolean = isinstance(dexpr, (ast.BoolOp, ast.Compare)) or (
+            isinstance(dexpr, ast.UnaryOp) and
+            isinstance(dexpr.op, ast.Not)) or (
+            isinstance(dexpr, ast.Call) and
+            isinstance(dexpr.func, ast.Name) and dexpr.func.id == 'bool')
         want = {id(c) for c in calls}
         done = set()
         tag = node.name.strip('_')
@@ -856,6 +866,26 @@ class Inliner:
             idents = _idents(scope) if not isinstance(scope, ast.Module) \
                 else {n.id for n in self._walk_scope(scope)
                       if isinstance(n, ast.Name)}
+            if decides and boolean:
+                # a helper that answers yes / no, used in a condition: its
+                # condition takes its place
+                for call in here:
+                    if not self._boolean_context(scope, call):
+                        continue
+                    try:
+                        pre, b = _instantiate(node, bind_kind, call, idents,
+                                              tag, as_expr=True)
+                    except _Site:
+                        continue
+                    if pre:
+                        continue
+                    new = ast.copy_location(b[0].value, call)
+                    if isinstance(new, ast.Call) and \
+                            isinstance(new.func, ast.Name) and \
+                            new.func.id == 'bool' and len(new.args) == 1:
+                        new = new.args[0]
+                    _Replace(call, new).visit(scope)
+                    done.add(id(call))
             if decides:
                 # statement positions first: the control flow stays visible
                 self._rewrite_blocks(scope, node, bind_kind, want - done,
@@ -1080,7 +1110,8 @@ class _Desugar(ast.NodeTransformer):
                 self.count += 1
         out = self._first_match(self._walrus(self._unroll(
             self._accumulate(self._devirtualise(out)))))
-        return self._conditional_assign(self._match_literals(out))
+        out = self._conditional_assign(self._match_literals(out))
+        return self._dict_dispatch(out)
 
     def generic_visit(self, node):
         for name in _BLOCKS:
@@ -1272,7 +1303,8 @@ class _Desugar(ast.NodeTransformer):
         """x = a if c else b   ->   if c: x = a  else: x = b"""
         out = []
         for st in stmts:
-            if isinstance(st, ast.Assign) and isinstance(st.value, ast.IfExp):
+            if isinstance(st, ast.Assign) and isinstance(st.value, ast.IfExp) \
+                    and not is_replace_if_present(st.value):
                 import copy as _c
                 v = st.value
 
@@ -1285,6 +1317,100 @@ class _Desugar(ast.NodeTransformer):
                 self.count += 1
             else:
                 out.append(st)
+        return out
+
+    def _dict_dispatch(self, stmts):
+        """table = {'a': fa, 'b': fb}; h = table.get(x)
+           if h is not None: BODY(h)  [else: ELSE]
+             ->  if x == 'a': BODY(fa) elif x == 'b': BODY(fb) [else: ELSE]
+        (table and h used for nothing else in the block)."""
+        out = list(stmts)
+        i = 0
+        while i + 2 < len(out) + 0:
+            d, g = out[i], out[i + 1]
+            ok = isinstance(d, ast.Assign) and len(d.targets) == 1 and \
+                isinstance(d.targets[0], ast.Name) and \
+                isinstance(d.value, ast.Dict) and d.value.keys and \
+                all(isinstance(k, ast.Constant) for k in d.value.keys) and \
+                all(isinstance(v, (ast.Name, ast.Attribute))
+                    for v in d.value.values) and \
+                isinstance(g, ast.Assign) and len(g.targets) == 1 and \
+                isinstance(g.targets[0], ast.Name) and \
+                isinstance(g.value, ast.Call) and \
+                isinstance(g.value.func, ast.Attribute) and \
+                g.value.func.attr == 'get' and \
+                isinstance(g.value.func.value, ast.Name) and \
+                g.value.func.value.id == d.targets[0].id and \
+                1 <= len(g.value.args) <= 2 and _simple_arg(g.value.args[0]) \
+                and (len(g.value.args) == 1 or (
+                    isinstance(g.value.args[1], ast.Constant) and
+                    g.value.args[1].value is None))
+            if not ok:
+                i += 1
+                continue
+            table, h = d.targets[0].id, g.targets[0].id
+            # the If that uses h: the next statement that mentions it
+            j = None
+            for k in range(i + 2, len(out)):
+                if any(isinstance(n, ast.Name) and n.id in (table, h)
+                       for n in ast.walk(out[k])):
+                    j = k
+                    break
+            use = out[j] if j is not None else None
+            later = [n for s2 in (out[j + 1:] if j is not None else [])
+                     for n in ast.walk(s2)
+                     if isinstance(n, ast.Name) and n.id in (table, h)]
+            between = out[i + 2:j] if j is not None else []
+            positive = None
+            if isinstance(use, ast.If):
+                t = use.test
+                if isinstance(t, ast.Name) and t.id == h:
+                    positive = True
+                elif isinstance(t, ast.Compare) and len(t.ops) == 1 and \
+                        isinstance(t.left, ast.Name) and t.left.id == h and \
+                        isinstance(t.comparators[0], ast.Constant) and \
+                        t.comparators[0].value is None:
+                    positive = isinstance(t.ops[0], ast.IsNot) if \
+                        isinstance(t.ops[0], (ast.Is, ast.IsNot)) else None
+                elif isinstance(t, ast.UnaryOp) and \
+                        isinstance(t.op, ast.Not) and \
+                        isinstance(t.operand, ast.Name) and \
+                        t.operand.id == h:
+                    positive = False
+            if positive is None or later:
+                i += 1
+                continue
+            hit, miss = (use.body, use.orelse) if positive else \
+                (use.orelse, use.body)
+            uses_ok = all(
+                not (isinstance(n, ast.Name) and n.id == table)
+                for s2 in hit + miss for n in ast.walk(s2)) and not any(
+                isinstance(n, ast.Name) and n.id == h
+                for s2 in miss for n in ast.walk(s2))
+            hn = [n for s2 in hit for n in ast.walk(s2)
+                  if isinstance(n, ast.Name) and n.id == h]
+            calls = [n for s2 in hit for n in ast.walk(s2)
+                     if isinstance(n, ast.Call) and
+                     isinstance(n.func, ast.Name) and n.func.id == h]
+            if not uses_ok or not hit or len(hn) != len(calls):
+                i += 1
+                continue
+            import copy as _c
+            chain = miss
+            for key, fn in reversed(list(zip(d.value.keys, d.value.values))):
+                body = _c.deepcopy(hit)
+                for s2 in body:
+                    for n in ast.walk(s2):
+                        if isinstance(n, ast.Call) and \
+                                isinstance(n.func, ast.Name) and \
+                                n.func.id == h:
+                            n.func = _c.deepcopy(fn)
+                test = ast.Compare(left=_c.deepcopy(g.value.args[0]),
+                                   ops=[ast.Eq()], comparators=[key])
+                chain = [ast.copy_location(ast.If(
+                    test=test, body=body, orelse=chain), use)]
+            out = out[:i] + between + chain + out[j + 1:]
+            self.count += 1
         return out
 
     def _first_match(self, stmts):
@@ -1590,6 +1716,19 @@ def inline_new_constants(trees, known):
         for n in sorted(used):
             done.append(('const:%s.%s' % (mod, n), 1, False))
     return done
+
+
+def is_replace_if_present(e):
+    """`x.replace(p, c) if p else x`: one value, with p blanked when there
+    is a p (the masking idiom); stays an expression."""
+    return isinstance(e, ast.IfExp) and isinstance(e.test, ast.Name) and \
+        isinstance(e.body, ast.Call) and \
+        isinstance(e.body.func, ast.Attribute) and \
+        e.body.func.attr == 'replace' and len(e.body.args) == 2 and \
+        isinstance(e.body.args[0], ast.Name) and \
+        e.body.args[0].id == e.test.id and \
+        isinstance(e.body.args[1], ast.Constant) and \
+        ast.dump(e.body.func.value) == ast.dump(e.orelse)
 
 
 def normalise(trees, known=None):
